@@ -379,6 +379,9 @@ func c04Pos(es []c04Entry) [][2]int {
 func compileSafe(p *ast.Program) (s string) {
 	defer func() {
 		if r := recover(); r != nil {
+			if iv, ok := r.(invariantViolation); ok {
+				panic(iv)
+			}
 			s = fmt.Sprint("<panic ", r, ">")
 		}
 	}()
